@@ -383,6 +383,10 @@ def _value(rng, n, eq):
         if eq and n >= 3 and "=" not in v:
             p = rng.randrange(1, n - 1)
             v = v[:p] + "=" + v[p + 1:]
+        if n >= 3 and rng.random() < 0.12:
+            # characters that str.splitlines() treats as line boundaries but that are ordinary data in a "\n"-separated descriptor
+            p = rng.randrange(1, n - 1)
+            v = v[:p] + rng.choice("\x0b\x0c\x1c\x1d\x1e\x85\u2028\u2029") + v[p + 1:]
         if _edge_ok(v, ' "'):
             return v
     return "v" * n
@@ -421,6 +425,9 @@ def gen_desc(rng, tier="quick", embedded=False):
         e = {"access": rng.choice(ACCESS), "sectors": rng.choice([0, 1, 63, 4192256, rint(rng, 40)]), "type": ty, "filename": None, "start": None, "uuid": None, "dev": None}
         if ty != "ZERO" or rng.random() < 0.2:
             e["filename"] = rstr(rng, rng.randrange(1, 40), alphabet=ASCII + " -_.=#", uni=rng.choice([0, 0, 0.3])).strip() or "d.vmdk"
+            if len(e["filename"]) >= 3 and rng.random() < 0.1:
+                p = rng.randrange(1, len(e["filename"]) - 1)
+                e["filename"] = e["filename"][:p] + rng.choice("\x0b\x0c\x1c\x85\u2028\u2029") + e["filename"][p + 1:]
             k = rng.random()
             if k < 0.5:
                 e["start"] = rng.choice([0, 0, 128, rint(rng, 40)])
